@@ -117,7 +117,7 @@ P('C14',
 
 P('C06',
   technique='property-based testing: generated mux configurations and frame sequences; oracle = independent EN 300 472 / EN 301 775 / ISO 13818-1 parser, callback-vs-coroutine differential, round trip through the library demultiplexers',
-  rule='case = (PES or TS + PID, data_identifier legal or illegal, min/max PES size incl. unaligned / swapped / out of range, 1-8 frames of '
+  rule='11 % of the cases: one PES frame with raw lines (VBI_SLICED_VBI_625 records, generated image and sampling parameters: offset, line length, unequal field counts, sequential / interlaced) whose monochrome sample data units are compared with the documented image rows. Otherwise: case = (PES or TS + PID, data_identifier legal or illegal, min/max PES size incl. unaligned / swapped / out of range, 1-8 frames of '
        'Teletext B (3 ids) / VPS@16 / WSS@23 / Caption@21 lines with random payloads, service mask, PTS up to 40 bits, unacceptable frames '
        'interleaved, coroutine output buffers of 1 byte .. 70000 bytes). Non-trivial: an accepted frame of >= 2 x 184 bytes, or one following a '
        'rejected frame, or drained through a coroutine buffer smaller than one TS packet; distinct = hash of consumed choices.',
